@@ -1,5 +1,5 @@
 PROP = {
-    "lean_modules": ["GunYu.Props.C14"],
+    "lean_modules": ["GunYu.Props.C14", "GunYu.Props.C14Proc", "GunYu.Props.C14Renumber", "GunYu.Props.C14Units"],
     "audit_namespaces": ["GunYu.Props.C14"],
     "required_theorems": [
         "GunYu.Props.C14.rebuild_contiguous",
@@ -16,6 +16,23 @@ PROP = {
         "GunYu.Props.C14.traffic_init_inv",
         "GunYu.Props.C14.traffic_each_step_preserves",
         "GunYu.Props.C14.resume_monotone_traffic",
+        "GunYu.Props.C14.proc_init_inv",
+        "GunYu.Props.C14.proc_each_step_preserves",
+        "GunYu.Props.C14.resume_monotone_process",
+        "GunYu.Props.C14.inprocess_answer_is_committed_prefix",
+        "GunYu.Props.C14.floor_is_latest_answer",
+        "GunYu.Props.C14.inprocess_start_never_below",
+        "GunYu.Props.C14.start_answer_is_unit_end",
+        "GunYu.Props.C14.inprocess_start_offset_never_below",
+        "GunYu.Props.C14.restart_returns_root",
+        "GunYu.Props.C14.stale_after_deletes",
+        "GunYu.Props.C14.renumber_init_inv",
+        "GunYu.Props.C14.renumber_each_step_preserves",
+        "GunYu.Props.C14.renumber_spans",
+        "GunYu.Props.C14.unit_offsets_grow",
+        "GunYu.Props.C14.unit_offsets_grow_from",
+        "GunYu.Props.C14.resume_monotone_traffic_parsed",
+        "GunYu.Props.C14.resume_monotone_process_parsed",
     ],
     "gens": ["c17"],
     # Model/FrontierTraffic.lean (resume_monotone_traffic) lets no unit commit while a recovery request of the start is
@@ -68,28 +85,53 @@ PROP = {
             "request each name a committed prefix (sampled from the double's connection goroutines while the loop stores the two one after the other: judged "
             "one by one; that both name the SAME unit is judged where the code reads them - after the loop returned and at the next StartPoint of the process); second StartPoint of the SAME process (fast path), and a third after a full resynchronisation moved the root "
             "forward (real ResetStartPoint + setCheckpoint): the new root, not the in-memory frontier; resumed run leaves no unit uncommitted. "
+            "Restarts INSIDE a process (Model/FrontierProc.lean): after EVERY kind of loop end (clean, settled, abrupt, stopped by a fault - fault kinds as above plus "
+            "lostreply:<u> = the unit's EXEC is executed by the target and its reply never arrives, vfdoubles LoseReplyAt; with a stalled lane) the SAME RedisOutput "
+            "calls StartPoint again: op c14p = real StartPoint of the live process vs Lean `pstart` (input: bisyncMissRunID / bisyncSeq / bisyncOffset read from the process + the "
+            "namespace read back from the target; output: answer, fast path taken or recovery state read, write requests, memory after the call); judged like a fresh start "
+            "(committed prefix, sync mode exactly the last committed unit - also after a lost reply), never below the earlier start of the process (loop-same-process-start-below-earlier), "
+            "the process replays on from it (second loop: no unit uncommitted, its crash points judged, fresh starts monotone), third start; then the new-root starts. "
+            "c14retry: journal leftovers {K..} of this numbering without the units before them, the first start misses (gap), arms the fast path, the k-th request of its purge "
+            "fails (c14p with fail=k: error, memory untouched, flag armed), the retry of the same process is answered by the root WITHOUT purge (c14p), the stream is replayed: "
+            "every unit committed, every request prefix -> fresh start names a committed prefix (leftover records count: their units are committed) and never moves backwards. "
+            "c14linger2 (pipeline, a connection with a SEND BUFFER between client and double, 12 trials): the loop is stopped with two units sent and unanswered, the same process "
+            "restarts and replays on: last value of every key (found the defect fixed by e03e645). "
+            "What these two scenarios judge: loop-stale-unit-overwrites-newer = a transaction of the STOPPED loop was applied after a newer write of the same key by the restarted one (a lost write: the target "
+            "no longer holds what the committed prefix says - against the property; the statement allows repeats, not a repeat applied after newer data) is the violation; the bare fact that an EXEC of "
+            "the stopped loop lands after the loop returned is reported as tie-shape:loop-commits-after-loop-returned - a tie to the guard of TSys / PSys (no unit commits while a start recovers), not the property itself. "
+            "c14paced (pipeline / parallel): the stream arrives unit by unit with flush ticks in between (the coordinator saves frontiers as it goes), one unit is refused (EXECABORT), the same "
+            "process starts again from memory (c14p) and replays on, paced again: every request prefix of the second loop -> fresh start names a committed prefix and never moves backwards "
+            "(the in-memory frontier must not be below the STORED snapshot: invariant snapLe of the model). "
+            "c14recoverloop also runs the second start of its (not armed) process through c14p. "
             "c14linger (all three modes): a loop stopped while a lane holds a unit, the SAME process starts again and replays on (unit 3 rewrites unit 1's key), "
-            "the stalled lane is released: no EXEC of the first loop after it returned, the target ends with the last value of every key. "
+            "the stalled lane is released: the target ends with the last value of every key (violation), no EXEC of the first loop after it returned (tie-shape). "
             "c14recoverloop: snapshot at unit 1 + journal 2, 3, StartPoint (clean-up) and the loop for units 4, 5 under one virtual clock: every request prefix -> "
             "fresh start never before the previous prefix's. "
-            "distinct_nontrivial = distinct (mode, #requests, journal size, index size) with clean-up / (#events, #requests) / advancing rebuilds",
-    "trusted": ["target double harness/overlay/pkg/vfdoubles/target.go (HSET/HGETALL/DEL/ZADD/ZREM/ZRANGEBYSCORE/INFO keyspace/SELECT semantics of a standalone Redis)",
+            "distinct_nontrivial = distinct (mode, #requests, journal size, index size) with clean-up / (#events, #requests) / advancing rebuilds / (mode, fast path, #requests, failing request, which start) of c14p",
+    "trusted": ["target double harness/overlay/pkg/vfdoubles/target.go (HSET/HGETALL/DEL/ZADD/ZREM/ZRANGEBYSCORE/INFO keyspace/SELECT semantics of a standalone Redis; LoseReplyAt = request executed, connection closed without the reply)",
+                "vfLSock (vf_c14_loop_test.go): a send buffer between client and double - Write never blocks on the peer, Close delivers what is queued (what close(2) does on a TCP socket); used by c14linger2 only",
                 "a unit's data, journal record and index entry are one MULTI/EXEC (dispatchBisyncUnit queues them on a TxnBatcher; C13/C18 check the batch) - modelled as the single request `commit`"],
     "assumptions": [
         "standalone target: one recovery slot (bisyncRecoverySlots() = [0]), every unit forced to slot 0; cluster mode (16384 slot tags, one index per slot, lanes on several nodes) is covered by the theorems about `rebuild` and the coordinator only",
-        "one numbering of units per namespace (World.e, root = e 0) in the invariant theorems; the numbering RESTART (root newer than the frontier after a finished full sync, no frontier, journal gap: start returns the root with seq 0) is in the start-point model (purge of the previous numbering's journal + snapshot, D25/D26) and tied by correspondence; that no unit is skipped across a restart of the numbering is checked on the real send loops (c14l, stale-frontier and two-lane cases), not proved",
-        "the request-sequence comparison of c14s is a FRESH process per start; the in-memory frontier-miss fast path (second StartPoint of the same RedisOutput) is monitored in c14l: after the loop, and after a full resynchronisation moved the root forward (real ResetStartPoint + setCheckpoint, with and without the in-memory offset a completed SendRdb leaves) the same process must resume at the new root",
-        "resume_monotone_traffic / World.e fixed: the unit boundaries of the stream are the same after every restart, i.e. the output filter, database blacklist and slot mode are unchanged across restarts (units are what survives FilterCmd / FilterCmdKey / bypass; a configuration change renumbers the stream while journal leftovers of the old numbering survive)",
+        "a numbering RESTART inside an execution is the atomic step `resync` of Model/FrontierRenumber.lean (the root of the new numbering written over whatever the old one left, minus ANY list of delete requests, no process running, nothing committed under the new numbering yet): renumber_spans covers every state an execution under the old numbering can leave and every partial purge; the requests of ResetStartPoint / SendRdb / setCheckpoint themselves and their crash points belong to C17 / C20; hypothesis: the new root lies beyond the old root and beyond the end of every unit committed under the old numbering (the snapshot of a full resynchronisation is taken after everything replayed before) - a new root INSIDE the old numbering's range is outside the theorem",
+        "renumber_spans is about FRESH processes (TSys); the frontier-miss fast path (PSys) is proved for ONE numbering. Their combination is not a theorem and is false in one corner: leftovers of an OLDER numbering that form a snapshot-less gap journal under a newer root, the purge of the first start fails half-way, the SAME process retries: the fast path returns the root WITHOUT purge, the leftovers survive into the new numbering (a later fresh start may combine them with new records and fall back to the root: resume point moves backwards, nothing skipped). Not reachable in the current code (every full resynchronisation completes ResetStartPoint's purge before the new root exists; a stale SNAPSHOT takes the root-override path, which does not arm the fast path) - c14retry exercises the same-numbering case only",
+        "the in-process restart is tied by op c14p on the standalone configuration in pipeline / parallel mode (cluster-typed two-lane cases and sync mode: monitors only; sync mode has no fast path - seeded mutation C14-r5-m1 hoisted it there and is caught by the lostreply cases)",
+        "end offsets grow with the unit number: PROVED for the units the parser model emits (unit_offsets_grow over Model/Bisync.lean `parse`, the model C13 ties to parseAofReplayUnits; resume_monotone_traffic_parsed / resume_monotone_process_parsed have no such hypothesis). What remains assumed - World.e fixed: the unit boundaries of the stream are the same after every restart, i.e. the output filter, database blacklist and slot mode are unchanged across restarts (units are what survives FilterCmd / FilterCmdKey / bypass; a configuration change renumbers the stream while journal leftovers of the old numbering survive)",
         "resume_monotone_traffic / W.rid, hvis: every record of an execution carries ONE run id, which the source still reports; a source fail-over inside an execution (snapshot under the old id, records under the new, later the old id no longer reported) is outside the theorem",
         "crash = the process stops and the requests it had not yet had applied are lost (TSys `.crash` drops both queues): bytes of a killed process still in a socket buffer of a stalled target node, executed after the next process started its recovery, are outside the model and the harness",
-        "inside ONE process the guard of TSys (no unit commits while a recovery request of a start is outstanding) holds because bisyncStartPoint is synchronous (facts c14_start_sync over the call graph of package syncer + pkg/redis/checkpoint, c14_startpoint_calls) AND because a send loop does not return before its lanes have finished (true of the parallel loop only since D35, 6f3a602; scenario c14linger keeps it)",
+        "inside ONE process the guard of TSys (no unit commits while a recovery request of a start is outstanding) holds because bisyncStartPoint is synchronous (facts c14_start_sync over the call graph of package syncer + pkg/redis/checkpoint, c14_startpoint_calls) AND because a send loop does not return before everything it has sent is answered (true of the parallel loop since D35, 6f3a602, of the pipeline loop since e03e645; scenarios c14linger / c14linger2 keep it)",
+        "PSys vs the code's behaviour after a failed request: `report i` (needs unit i committed at some time, not in this run) and `stop` (drops the requests not applied yet, memory = the coordinator's frontier; memory lagging after a failed save inside onCommitted = `stop` taken before that `report`) are over-approximations. The fault steps are NOT a superset: `apply` consumes the head of a queue, `stop` / `giveUp` drop a whole queue, but the code also SKIPS a failed request and goes on (clean-up: DEL fails -> ZREM still sent; coordinator.flush: a failed journal DEL is logged and the loop goes on). The resulting namespaces (a journal record without index member) are not states of PSys / TSys; they are harmless - such a record is invisible to every start (proved for the restart invariant RInv up to `scrub`, Proofs/FrontierScrub.lean) - but for PInv / TInv this is argued and monitored (fault cases `del` of c14l, start faults of c14s), not proved: a `skip` step + PInv up to scrub is open. A request the target APPLIED whose reply is lost is a harness fault for unit transactions and the coordinator's frontier save (lostreply / lostsave), not a step of the model: after lostsave the memory is one report below the stored snapshot (invariant snapLe false in that Go state); the journal records above the memory are still there (the DELs are issued after the save returned), so a later fresh start does not regress - only the harness (lostsave, c14paced) stands behind this",
+        "the *_parsed theorems are ONE parse from the root. That a loop which re-parses from a unit end (fresh bypass / inTxn / txn / current DB; the reader injects the SELECT of the resume DB) yields the tail of the same unit list is NOT proved (it looks provable: after every emit bypass = false, inTxn = false, txn = []) - it is part of `World.e fixed`, also with an unchanged configuration",
+        "ResetStartPoint's purge loads the journal filtered by {cfg.RunId, reader id, current ids} while `del frontier` is unconditional: records of a run id outside that list survive snapshot-less; they are invisible until that id is reported again, and then the root found under it is the old one (same numbering = the c14retry case)",
+        "op c14p: the memory after a start WITHOUT root checkpoint (bisyncSeq 0 / offset -1) is tied by two fixed cases (c14rootless); `pstart` does not write seq / off into the memory on a successful start (the memory is read only after `stop` copied the coordinator's frontier, which starts as the answer) - the driver appends that `stop`; c14p with fail=k on a start that does not purge is not generated (formats differ there: it would show as a diff)",
         "RDB phase units (bisync_rdb.go, `rdb:` records) are outside the property (incremental replay)",
         "cluster: the model has one journal / index; several slot tags are covered by `rebuild` (any record list), c14b (best latest over slots) and the cluster-typed starts c14k (2-3 slot tags, the 16384-tag scan, purge / clean-up over a Go map of index keys: order-insensitive monitors with an explicit oracle, every write a crash point and a fault point) - no request-sequence comparison there",
         "reviewer's mutant m5 (lane worker ignores validateBisyncExecReplies) is behaviourally equivalent: txnBatcher.Receive already rejects EXECABORT and inner errors (common.CheckTxnRepliesError) before the validation is reached - verified with the queued / inner fault cases under the mutant",
     ],
     "partial": [
-        "monotonicity of the resume point along executions WITH traffic is PROVED for the split-queue system (resume_monotone_traffic over Model/FrontierTraffic.lean: commits on any lanes in any order, reports in any order, ticks at any time under any FlushPolicy, every request applied on its own, crash after any request, restarts): sequence number and offset a fresh start would resume from never decrease, and name a committed prefix. What it rests on beyond the one-queue model: (1) no unit commits / is reported while a recovery request of the start is outstanding - source facts c14_start_sync / c14_startpoint_calls and the c14l monitor loop-recovery-overlaps-send-loop; (2) hypotheses: end offsets grow with the unit number, the source still reports the run id the units are recorded under (matchRun W.rid W.ids), index members are scored with their key's number and a root checkpoint exists in the initial state (both hold in a fresh namespace, traffic_init_inv, and are preserved). One numbering only (World.e): a numbering restart inside the execution happens only from resume number 0 (root fall-back), which the theorem covers; two numberings with different offsets are not spanned. NOT a step of TSys: the in-process frontier-miss fast path (bisyncFrontierMissFastPath: after one miss every later StartPoint of the same RedisOutput answers from memory - the contiguous REPORTED prefix, possibly behind units already committed - or returns the root without purge): same-process restarts are outside the theorem and covered by the c14l monitors only (second / third StartPoint of the same process after clean loops, c14linger after a stopped parallel loop, c14recoverloop)",
-        "numbering restart (root newer / no frontier / journal gap: the start returns the root with seq 0 and purges the previous numbering) is in the start-point model and tied by correspondence + monitors (c14s requests, start-fault-renumber-skips-unit, c14l stale-frontier cases); the invariant theorems fix ONE numbering (World.e): no theorem spans two numberings",
+        "monotonicity of the resume point along executions WITH traffic is PROVED for the split-queue system (resume_monotone_traffic over Model/FrontierTraffic.lean) and for the system with the memory of the process (resume_monotone_process over Model/FrontierProc.lean: same-process restarts answered by the frontier-miss fast path from memory or by the root without purge, loops that stop at any moment, a start whose purge fails and is retried, a clean-up that gives up): what a fresh start would resume from never decreases and names a committed prefix; what a start of the live process returns is a committed prefix (inprocess_answer_is_committed_prefix) and never below an earlier start of the same process (inprocess_start_never_below). Rests on: (1) the guard - no unit commits / is reported while a recovery request of the start is outstanding (source facts c14_start_sync / c14_startpoint_calls, monitor tie-shape:recovery-request-after-start-returned, the loops join what they sent: c14linger / c14linger2); (2) hypotheses: strictly growing end offsets (discharged for parsed streams: unit_offsets_grow), the source still reports the run id of the records (hvis), the initial state satisfies the invariant (a fresh namespace: traffic_init_inv / proc_init_inv; after a numbering restart: renumber_init_inv); (3) ONE numbering in PSys",
+        "two numberings are spanned by renumber_spans (execution under W1, `resync`, execution under W2: the resume offset does not decrease across the restart, is monotone after it, and the sequence number counts units of the new numbering only) for FRESH-process starts; the invariant is stated up to `scrub` (records / snapshot no start can read, proved irrelevant: Proofs/FrontierScrub.lean) and needs unique journal keys (a keyspace is a map; preserved by every step). Not covered: the fast path across a numbering restart (see assumptions; tied by the new-root c14p starts and monitors), a root inside the old range, run-id changes inside W2 (W.ids fixed)",
+        "OBSERVATION (liveness, outside C14): the wait e03e645 added to the pipeline loop (replies of every unit sent) has no bound - NewRedisConn ignores ctx, the standalone RedisConn has no read deadline, the cluster client no ReadTimeout: a target that keeps the connection open and never answers holds sendBisyncPipeline (and run(), Stop(), a leadership hand-over) for ever. Not a new class (before the fix <-receiveDone waited on a receiver in the same deadline-less Receive; sync mode and the parallel lanes block the same way); the fix widens it from the unit being received to window + 1 units. No harness case (vfLSock delivers or closes, never stalls for ever). Residual safety hole the wait does not close: a Receive that fails because the CONNECTION failed (RST / keep-alive expiry) while the bytes are in the socket buffer of a stalled target - the loop returns, the transaction is executed later: the same corner as the `crash` assumption",
         "sync mode on a cluster (several latest records, root override without purge, rests on LoadBisyncLatestStartRecord ordering by end offset first): sync_mode_exact has one slot; c14b and the c14k sync cases check the real selection against an explicit oracle",
     ],
 }
@@ -99,10 +141,13 @@ MANIFEST = {
             "an invariant of the replay transition system (unit transactions in any lane order, completion reports in any order, flush ticks at any time, "
             "each queued frontier-save / journal DEL / ZREM / recovery request applied one at a time, crash and restart anywhere) proves that at EVERY crash point "
             "the start point is the end of a committed unit with every earlier unit committed; sync mode resumes exactly after the last committed unit; "
-            "any number of stop/start cycles, each cut after any number of recovery requests, never moves the resume point backwards. "
+            "any number of stop/start cycles, each cut after any number of recovery requests, never moves the resume point backwards; "
+            "the same with restarts INSIDE a process as steps (frontier-miss fast path answering from memory or by the root without purge, loops that stop, a purge that fails and is retried): "
+            "the in-memory answer is a committed prefix and never below an earlier start of the process; one theorem spans a numbering restart (old execution, new root over any leftovers, new execution: "
+            "offset never decreases, units of the old numbering are never counted); end offsets grow with the unit number is proved from the parser model. "
             "Tied to the code by differential correspondence of the real RebuildBisyncFrontier, bisyncFrontierCoordinator (virtual time) and "
-            "bisyncStartPoint + clean-up against the target double with every request prefix replayed, plus independent monitors. "
-            "Five defects found and fixed (D35: the parallel send loop returned while a lane could still commit - after an in-process restart the stale unit overwrote newer data; D12: recovery deleted journal records without saving the rebuilt frontier; D21: recovery keys read in the database GetCheckpoint visited last; D25: numbering restart over the stale frontier of the previous numbering skipped units; D26: journal gap made every start fail).",
+            "bisyncStartPoint + clean-up against the target double with every request prefix replayed, StartPoint of a LIVE process (memory + namespace -> answer, requests, memory) vs `pstart`, plus independent monitors. "
+            "Six defects found and fixed (e03e645: the pipeline send loop returned while transactions it had sent were unanswered - after an in-process restart the stale transaction overwrote newer data; D35: the parallel send loop returned while a lane could still commit - after an in-process restart the stale unit overwrote newer data; D12: recovery deleted journal records without saving the rebuilt frontier; D21: recovery keys read in the database GetCheckpoint visited last; D25: numbering restart over the stale frontier of the previous numbering skipped units; D26: journal gap made every start fail).",
     "note": "trusted: Lean kernel (propext, Classical.choice, Quot.sound only), target double, extractor, harness; models hand-written and tied by correspondence; the flush policy is a parameter of the model (FlushPolicy, any value), the run passes the code's values",
     "technique": "Lean 4 proof (fold invariants, transition-system invariant by induction over step lists) + differential correspondence over every request prefix (crash points) under virtual time",
 }
